@@ -119,6 +119,8 @@ func main() {
 		reqs[i].Scen = genReq(rng)
 		reqs[i].Key = outcomeKey(shared, &reqs[i].Scen)
 	}
+	ran := make([]atomic.Bool, len(reqs))
+	quiet := outcomeKey(shared, &eng.Scen{Engine: "On"}) // outcome of a request that fires nothing
 	// expected probe outcome per builder configuration (built alone)
 	probe := eng.Scen{Engine: "On", Req: []eng.Entry{{C: "ARGS_GET", K: eng.Bytes("q"), V: eng.Bytes("Select union")}, {C: "REQUEST_HEADERS", K: eng.Bytes("X-Probe"), V: eng.Bytes("1")}}}
 	wantProbe := make([]string, len(builderConfigs))
@@ -152,6 +154,7 @@ func main() {
 			for !stop.Load() {
 				i := r.Intn(len(reqs))
 				got := outcomeKey(shared, &reqs[i].Scen)
+				ran[i].Store(true)
 				txCount.Add(1)
 				if got != reqs[i].Key {
 					mismatches.Add(1)
@@ -241,7 +244,14 @@ func main() {
 		}
 		f.Close()
 	}
+	distinctFiring := 0
+	for i := range reqs {
+		if ran[i].Load() && reqs[i].Key != quiet {
+			distinctFiring++
+		}
+	}
 	out := map[string]any{
+		"distinct_requests_firing_rules_run_concurrently": distinctFiring,
 		"transactions": txCount.Load(), "outcome_mismatches": mismatches.Load(), "waf_builds": builds.Load(), "waf_build_failures": buildFail.Load(),
 		"built_waf_probe_mismatches": probeMismatch.Load(), "panics": panics.Load(), "deadlock": deadlock,
 		"cache_problems": cacheProblems, "cache_entries_left_after_all_wafs_closed": leaked,
